@@ -28,10 +28,11 @@ class LObj:
 
 
 class LList(LObj):
-    __slots__ = ("items",)
+    __slots__ = ("items", "cap")
 
     def __init__(self, items):
         self.items = items
+        self.cap = len(items)  # capacity of the vm's vector, to know when it has to grow
 
 
 class LTuple(LObj):
